@@ -298,6 +298,8 @@ def poolH : Handler := fun inp impl => do
     let slack ← getI impl "slack_us"
     let attempts ← getI impl "attempts"
     let err := (impl.getObjValAs? String "err").toOption.getD ""
+    if err.startsWith "env:" then
+      return ({ model := m, agree := true, spec := true, nontrivial := false, tag := "inconclusive-environment" } : Verdict).toJson
     let idleUs := idleMs * 1000
     let wantKept : Nat := if maxconn == 0 then min n 2 else if maxconn < 0 then 0 else min n maxconn.toNat
     let earlyBound : Int := if idleMs > 0 then idleUs / 2 else obs / 2
@@ -349,6 +351,45 @@ def pathH : Handler := fun inp impl => do
       else "wrong-transport-selected"
     return ({ model := m, agree := rts == expected, spec := spec, nontrivial := path != .websocket, tag := tag } : Verdict).toJson
 
+/-- c19.dial: spec = an upstream that accepts no connection ⇒ 504 no earlier than the configured dial timeout
+(2 ms of timer granularity) and no later than it plus the slack, whatever the response-header timeout. -/
+def dialH : Handler := fun inp impl => do
+  let dialMs ← getI inp "dial_ms"
+  let rhtMs ← getI inp "rht_ms"
+  let o ← kindOpts (← getS inp "kind")
+  let cell := setConfig Cell.init { dialTimeout := dialMs * 1000000, responseHeaderTimeout := rhtMs * 1000000,
+                                    keepAliveTimeout := 1000000000, idleConnTimeout := 1000000000, maxConn := 4 }
+  let tg := addTarget cell o
+  let tr := selectTransport (newHTTPProxy cell) tg
+  let r := serveUnreachable tr
+  let m := match r with
+    | some (st, t) => Json.mkObj [("status", st), ("at_us", Json.num (JsonNumber.fromInt (t / 1000))), ("used", usedName tg)]
+    | none => Json.mkObj [("status", Json.null), ("used", usedName tg)]
+  match impl.getObjValAs? Nat "status" with
+  | .error _ =>
+    return ({ model := m, agree := false, spec := true, nontrivial := false, tag := "harness-error" } : Verdict).toJson
+  | .ok ist =>
+    let el ← getI impl "elapsed_us"
+    let slack ← getI impl "slack_us"
+    let attempts ← getI impl "attempts"
+    let err := (impl.getObjValAs? String "err").toOption.getD ""
+    if err.startsWith "env:" then
+      return ({ model := m, agree := true, spec := true, nontrivial := false, tag := "inconclusive-environment" } : Verdict).toJson
+    let inWindow := decide (dialMs * 1000 - 2000 ≤ el) && decide (el ≤ dialMs * 1000 + slack)
+    let spec := err.isEmpty && ist == 504 && inWindow
+    let agree := match r with
+      | some (st, t) => err.isEmpty && ist == st && decide (t / 1000 - 2000 ≤ el) && decide (el ≤ t / 1000 + slack)
+      | none => !err.isEmpty
+    let cls := if rhtMs == 0 then "dial-timeout-504/no-header-limit" else if rhtMs < dialMs then "dial-timeout-504/header-limit-shorter"
+               else "dial-timeout-504/header-limit-longer"
+    let tag :=
+      if spec then (if attempts > 1 then cls ++ "+remeasured" else cls)
+      else if !err.isEmpty then "no-dial-timeout-enforced"
+      else if ist != 504 then "dial-timeout-not-504"
+      else if decide (el > dialMs * 1000 + slack) then "dial-timeout-late"
+      else "dial-timeout-early"
+    return ({ model := m, agree := agree, spec := spec, nontrivial := true, tag := tag ++ "/" ++ usedName tg } : Verdict).toJson
+
 def streams : List (String × Handler) :=
-  [("c19.fields", fieldsH), ("c19.timing", timingH), ("c19.binary", timingH), ("c19.load", loadH), ("c19.pool", poolH), ("c19.path", pathH)]
+  [("c19.fields", fieldsH), ("c19.timing", timingH), ("c19.binary", timingH), ("c19.load", loadH), ("c19.pool", poolH), ("c19.path", pathH), ("c19.dial", dialH)]
 end Fabio.Driver.C19
